@@ -8,7 +8,8 @@ from genlib import *
 
 LEAN_MODULES = ["MpirProofs.Props.C05_ptr2"]
 THEOREMS = ["Mpir.AliasMem.rootrem_ptr_spec", "Mpir.AliasMem.rootrem_exceptions",
-            "Mpir.AliasMem.mpz_mul_ptr_spec", "Mpir.AliasMem.gcdext_ptr_spec"]
+            "Mpir.AliasMem.mpz_mul_ptr_spec", "Mpir.AliasMem.gcdext_ptr_spec",
+            "Mpir.AliasMem.mpf_div_ptr_spec", "Mpir.AliasMem.mpf_div_by_zero"]
 PINS = [("mpz/mul.c", None), ("gmp-mparam.h", "MUL_KARATSUBA_THRESHOLD"), ("mpz/gcdext.c", None), ("mpz/powm.c", None), ("mpz/powm_ui.c", None),
         ("mpz/aorsmul.c", None), ("mpz/aorsmul_i.c", None), ("mpf/div.c", None), ("mpf/mul.c", None), ("mpf/sqrt.c", None), ("mpf/div_ui.c", None)]
 TRUSTED = ["hand-written pointer-level models lean/Mpir/Model/AliasMul.lean (tied by the ops alias_mul … of harness/ops_alias2.c on every "
